@@ -788,7 +788,12 @@ impl Lexer<'_> {
         }
 
         self.emit_token(tok_channel, tok_type, Payload::None);
-        self.pop_mode();
+
+        // When called from `finalize_lexing` (no next char), the expecting mode
+        // has already been popped off the stack by the caller
+        if next_char.is_some() {
+            self.pop_mode();
+        }
     }
 
     fn dispatch_mode_default(&mut self, next_char: char) {
